@@ -25,6 +25,13 @@ class Err(Exception):
     pass
 
 
+class FalsyErr(Err):
+    """an exception instance whose truth value is False"""
+
+    def __len__(self):
+        return 0
+
+
 class _Box:
     def __init__(self, n):
         self.n = n
@@ -149,7 +156,9 @@ def run_real(case: str) -> str:
             elif tok == "fin":
                 q.finish()
             elif tok == "finerr":
-                q.finish(Err("e"))
+                # the given exception is an arbitrary object: in half of the cases an instance that is *falsy* (a class
+                # defining `__len__` – collection-like errors, exception groups of a project's own) – it is the finish reason all the same
+                q.finish(FalsyErr("e") if rot % 2 else Err("e"))
             elif tok == "cancelq":
                 q.cancel()
             elif tok == "recv":
